@@ -22,6 +22,8 @@ var c11Progs = []c11Prog{
 	{"data", "\tDB {0},{1}\n\tDW {2}\n\tDD {3}\n\tDB 0x55\n", [][4]int64{{1, 255, 0x1234, 0x12345678}, {0, 0x41, 0xffff, 0xffffffff}}},
 	{"layout", "\tORG {0}\n\tDB 1,2,3\n\tRESB {1}\n\tALIGNB {2}\nhere:\n\tDW here\n\tRESB {3}-$\n\tDB 0xAA\n", [][4]int64{{0x7c00, 5, 16, 0x7c40}, {0xc200, 18, 4, 0xc230}}},
 	{"misc", "\tINT {0}\n\tIN AL,{1}\n\tSHL AX,{2}\n\tPUSH {3}\n", [][4]int64{{0x10, 0x60, 1, 127}, {0x13, 0x64, 4, 128}}},
+	{"reuse_mul", "\tMOV AX,{0}*512\n\tMOV CX,{0}\n\tMOV AL,[BX+{0}]\n\tDB {0},{1}/9,{1}%5,{1}\n\tMOV DX,{2}*2+{2}\n\tDW {2},{3}/2,{3}\n", [][4]int64{{18, 18, 3, 0x1234}, {1, 255, 127, 0xffff}}},
+	{"high_values", "\tADD EAX,{0}\n\tAND EBX,{1}\n\tMOV ECX,[EBX+{2}]\n\tDD {3}/0x1000\n\tCMP EDX,{0}\n", [][4]int64{{0xffffff80, 0x80000000, 0xfffffffc, 0xe0000000}, {0xffffffff, 0xffff0000, 0x80000000, 0xfffff000}}},
 	{"far_out", "\tJMP DWORD {0}*8:{1}\n\tOUT {2},AL\n\tMOV EDX,{3}\n", [][4]int64{{2, 0x1b, 0x21, 0x000a0000}, {1, 0x280000, 0xa1, 1}}},
 }
 
@@ -49,7 +51,12 @@ func c11Scenario(tier string) *core.Scenario {
 		Build: func(c *core.Chooser) *core.Case {
 			p := c11Progs[c.Pick("prog", len(c11Progs))]
 			vs := p.vals[c.Pick("vals", len(p.vals))]
-			nsites := strings.Count(p.tmpl, "{")
+			nsites := 0
+			for i := 0; i < 4; i++ {
+				if strings.Contains(p.tmpl, fmt.Sprintf("{%d}", i)) {
+					nsites = i + 1
+				}
+			}
 			subset := 1 + c.Pick("subset", (1<<uint(nsites))-1)
 			depth := 1 + c.Pick("depth", depths)
 			body := c.Pick("body", 3)
